@@ -137,8 +137,10 @@ theorem lookupRef_rem (pipe : Callable) (self : Env) (sib : String → RExp) (r 
       rw [envGet_dropKey_other q r.id self this]
   · rfl
 
-theorem remove_input_graph (ti : TypeInfo) (p : Program) (hok : RemInOK x q p = true) :
-    deepGraph (ti.removeInput x q) (removeInputOne x q p) = (deepGraph ti p).map (remNodeIn x q) := by
+theorem remove_input_graph_both (ti : TypeInfo) (p : Program) (hok : RemInOK x q p = true) :
+    deepGraph (ti.removeInput x q) (removeInputOne x q p) = (deepGraph ti p).map (remNodeIn x q)
+    ∧ ∀ big fuel, deepGraphAt big fuel (ti.removeInput x q) (removeInputOne x q p)
+        = (deepGraphAt big fuel ti p).map (remNodeIn x q) := by
   simp only [RemInOK, Bool.and_eq_true, bne_iff_ne, ne_eq, List.all_eq_true] at hok
   obtain ⟨⟨hx, hall⟩, htopok⟩ := hok
   have hmo : membersOf (ti.removeInput x q) = membersOf ti := rfl
@@ -250,22 +252,42 @@ theorem remove_input_graph (ti : TypeInfo) (p : Program) (hok : RemInOK x q p = 
     funext n
     simp only [nodeMap, remNodeIn, SRem, id, List.map_id]
     split <;> rfl
-  rw [← deepGraphKeep_true ti p, ← hmap]
-  apply sim_graph H
-  · intro t ht
-    have htop := by simpa [ht] using htopok
-    refine ⟨?_, ?_, htop, trivial, rfl⟩
-    · rw [hp']; simp [ht]
-    · simp [FRem, topPipe, Ne.symm hx]
-  · intro ht; rw [hp']; simp [ht]
-  · simp [SRem, Ne.symm hx]
-  · rw [hp']
-    simp only [graphFuel, List.map_map]
-    congr 2
-    apply List.map_congr_left
-    intro c _
-    simp only [Function.comp, FRem]
-    split <;> simp
+  refine ⟨?_, ?_⟩
+  · rw [← deepGraphKeep_true ti p, ← hmap]
+    apply sim_graph H
+    · intro t ht
+      have htop := by simpa [ht] using htopok
+      refine ⟨?_, ?_, htop, trivial, rfl⟩
+      · rw [hp']; simp [ht]
+      · simp [FRem, topPipe, Ne.symm hx]
+    · intro ht; rw [hp']; simp [ht]
+    · simp [SRem, Ne.symm hx]
+    · rw [hp']
+      simp only [graphFuel, List.map_map]
+      congr 2
+      apply List.map_congr_left
+      intro c _
+      simp only [Function.comp, FRem]
+      split <;> simp
+  · intro big fuel
+    unfold deepGraphAt
+    cases ht : p.top with
+    | none =>
+      have htop' : (removeInputOne x q p).top = none := by rw [hp']; simp [ht]
+      simp [htop']
+    | some t =>
+      have htop : pipeOKRem x q (topPipe t) = true := by simpa [ht] using htopok
+      have hFt : FRem x q (topPipe t) = topPipe (dropB x q t) := by simp [FRem, topPipe, Ne.symm hx]
+      have := sim_graph_at H big fuel t htop trivial rfl hFt (by simp [SRem, Ne.symm hx])
+      have htop' : (removeInputOne x q p).top = some (dropB x q t) := by rw [hp']; simp [ht]
+      simp only [htop']
+      rw [this, hmap]
+      congr 1
+      exact nodesOfKeep_true ti p big fuel _ _ _ _
+
+theorem remove_input_graph (ti : TypeInfo) (p : Program) (hok : RemInOK x q p = true) :
+    deepGraph (ti.removeInput x q) (removeInputOne x q p) = (deepGraph ti p).map (remNodeIn x q) :=
+  (remove_input_graph_both x q ti p hok).1
 
 end Rem
 
@@ -284,5 +306,19 @@ theorem remove_inputs_graph (pairs : List (String × String)) (ti : TypeInfo) (p
     have := ih (ti.removeInput x q) (removeInputOne x q p) hok.2
     simp only [removeInputs, TypeInfo.removeInputs] at this
     rw [this, remove_input_graph x q ti p hok.1]
+
+theorem remove_inputs_graph_at (pairs : List (String × String)) (ti : TypeInfo) (p : Program)
+    (hok : RemInsOK pairs p = true) (big fuel : Nat) :
+    deepGraphAt big fuel (ti.removeInputs pairs) (removeInputs pairs p)
+      = pairs.foldl (fun g xq => g.map (remNodeIn xq.1 xq.2)) (deepGraphAt big fuel ti p) := by
+  induction pairs generalizing ti p with
+  | nil => rfl
+  | cons xq rest ih =>
+    obtain ⟨x, q⟩ := xq
+    simp only [RemInsOK, Bool.and_eq_true] at hok
+    simp only [removeInputs, TypeInfo.removeInputs, List.foldl_cons]
+    have := ih (ti.removeInput x q) (removeInputOne x q p) hok.2
+    simp only [removeInputs, TypeInfo.removeInputs] at this
+    rw [this, (remove_input_graph_both x q ti p hok.1).2 big fuel]
 
 end Proofs.RefactorGraph
